@@ -92,16 +92,20 @@ let predict (c : string) (obs : string) : string * string * bool =
       let tgt = next () in
       let _preload = next () in
       let _resp = next () in
+      let pools = num () in
+      let _late = next () in
       let cfg = parse_kvs (num ()) in
       let items = List.init (num ()) (fun _ -> parse_item ()) in
-      let g = { g_ssl = ssl; g_target_host = bytes_of_string (if tgt = "name" then "localhost" else "127.0.0.1");
-                g_resolved = bytes_of_string "T" } in
+      let gk k = { g_ssl = ssl; g_target_host = bytes_of_string (if tgt = "name" then "localhost" else "127.0.0.1");
+                   g_resolved = bytes_of_string ("T" ^ string_of_int k) } in
+      let ks = List.init pools (fun k -> k) in
+      let string_of_bytes (l : n list) = String.concat "" (List.map (fun c -> String.make 1 (Char.chr (int_of_n c))) l) in
       let of_wire (w : wire) : rc =
-        { srv = (if w.w_addr = bytes_of_string "T" then "T" else "?"); tls = field_of_bool w.w_tls; meth = hx w.w_method;
+        { srv = string_of_bytes w.w_addr; tls = field_of_bool w.w_tls; meth = hx w.w_method;
           uri = hx w.w_uri; host = hx w.w_host; body = hx w.w_body; hdrs = rc_of_hmap w.w_hdrs } in
-      let model = List.map (fun r -> of_wire (on_wire g r)) (file_requests canon_mime f cfg [] items) in
+      let model = List.concat_map (fun k -> List.map (fun r -> of_wire (on_wire (gk k) r)) (file_requests canon_mime f cfg [] items)) ks in
       (* specification, entry by entry with the in-file headers in scope *)
-      let sp = List.map of_wire (file_spec canon_mime f cfg [] g items) in
+      let sp = List.concat_map (fun k -> List.map of_wire (file_spec canon_mime f cfg [] (gk k) items)) ks in
       (* canonical keys that both the entry (any entry of the file / in-file header) and the configuration define *)
       let cfgkeys = List.map (fun (k, _) -> hx (canon_mime k)) cfg in
       let entkeys = List.concat_map (function IHdr (k, _) -> [hx (canon_mime k)] | IEntry e -> List.map (fun (k, _) -> hx (canon_mime k)) e.e_hdrs) items in
